@@ -460,6 +460,65 @@ EXTRA = {
 }
 
 
+# addenda of round 14 (technique, text), appended after EXTRA
+EXTRA14 = {
+    'C01': ('sample size bounded by the population (rule of C02)',
+            'The bootstrap sample size is floored only as far as a guard '
+            'on the number of markers allows.'),
+    'C02': ('bootstrap settings handed on as received; sample size '
+            'bounded by the population',
+            'The iteration count and the factors reach the election as '
+            'the front end received them; the sample drawn without '
+            'replacement never exceeds the markers there are.'),
+    'C03': ('HDF5 codec of the confidence fields (rule of C15)',
+            'The HDF5 writer stores every confidence field as the record '
+            'holds it.'),
+    'C04': ('set algebra on key views in the taint engine',
+            'The result of `&`, `|`, `-`, `^` on dict key views is a set '
+            'and carries a hash-order label.'),
+    'C05': ('polynomial identity of span-versus-count contiguity tests, '
+            'also in the helpers the anchored code calls',
+            'A request is taken for one block from its end points and '
+            'length only as last - first == count - 1 of a sorted, '
+            'distinct sequence (R-ARITH/span-contiguity).'),
+    'C07': ('co-permutation of arrays cut by one window',
+            'Indices and values cut by the same pointer window are never '
+            'reordered separately (R-PERM/parallel-windows-in-step).'),
+    'C08': ('sample size bounded by the population (rule of C02)',
+            'A parent with a single usable gene is voted on with that '
+            'gene: the sample size is not floored above the population.'),
+    'C09': ('reference file list and cell tables handed on as received',
+            'The front ends hand the list of reference files and the cell '
+            'tables to the summation as they received them '
+            '(R-FWD/handed-on-unchanged).'),
+    'C10': ('effect census of process-lifetime memos',
+            'No function of the tree code that is memoised for the life '
+            'of the process reads a file '
+            '(R-MEMO/outside-state-not-in-key).'),
+    'C11': ('namesake agreement of worker keywords',
+            'Each threshold slot of the marker workers is given the '
+            'caller\'s value of that name (R-FWD/keyword-not-crossed).'),
+    'C13': ('polynomial identity of span-versus-count contiguity tests',
+            'A contiguity shortcut decided from the first element, the '
+            'last element and the count applies to sorted, distinct '
+            'sequences only.'),
+    'C17': ('plain sortedness of the election loop on reaching '
+            'definitions',
+            'The parents of a level are searched in node-name order on '
+            'every path, so the reduced tree and a tree that never had '
+            'the level consume the shared generator alike '
+            '(R-ORDER/elections-in-name-order).'),
+    'C18': ('plain sortedness of enumerated node pairs',
+            'A writer that enumerates node pairs emits them from a '
+            'plainly sorted list, the orientation the readers re-create '
+            'with `<` (R-ORDER/pairs-plainly-oriented).'),
+    'C20': ('return census of the word-to-path helper',
+            'Every word is looked up under its own spelling: the helper '
+            'returns Path(word minus quotation marks) on every path '
+            '(R-SAMEVAL/word-tested-as-is).'),
+}
+
+
 def main():
     checks = []
     for pid in ALL:
@@ -470,6 +529,11 @@ def main():
             tech = tech + '; ' + EXTRA[pid][0]
             text = text + ' ' + EXTRA[pid][1]
             ref = ref + ' and section 15'
+        if pid in EXTRA14:
+            tech = tech + '; ' + EXTRA14[pid][0]
+            text = text + ' ' + EXTRA14[pid][1]
+            if 'section 15' not in ref:
+                ref = ref + ' and section 15'
         if pid not in ('C04', 'C14', 'C19', 'C20'):
             tech = tech + ('; generic structural rules (tiling, cursors, '
                            'memo keys, permutation pairing, dtype and HDF5 '
